@@ -751,7 +751,7 @@ func (x *world) authShape(d *draft) string {
 	valid := enc(url.QueryEscape(id) + ":" + url.QueryEscape(secret))
 	rawAuth := func(vals ...string) { d.auth = authSpec{kind: "raw", raw: vals, id: id, secret: secret} }
 	shapes := []string{"basic-badpct-secret", "basic-badpct-id", "basic-badpct-both", "basic-badb64", "basic-nocolon", "basic-empty", "basic-bare", "basic-emptycreds", "basic-nul",
-		"basic-lower", "basic-unescaped", "basic-wrongsecret", "basic-unknown-client", "basic-other-client", "basic-valid", "bearer-garbage", "bearer-bare", "bearer-double",
+		"basic-lower", "basic-pct-binary", "basic-unescaped", "basic-wrongsecret", "basic-unknown-client", "basic-other-client", "basic-valid", "bearer-garbage", "bearer-bare", "bearer-double",
 		"bearer-valid", "double-header", "huge", "digest", "bad-utf8", "post-wrongsecret", "post-valid", "post-and-basic-conflict", "assertion-expired", "assertion-wrong-aud",
 		"assertion-wrong-key", "assertion-garbage", "assertion-forged", "assertion-type-wrong", "assertion-no-type", "assertion-and-basic", "idonly", "none", "basic-badpct-secret", "basic-badpct-id"}
 	s := shapes[r.IntN(len(shapes))]
@@ -774,6 +774,8 @@ func (x *world) authShape(d *draft) string {
 		rawAuth("Basic " + enc(pick(r, ":", id+":", ":"+secret)))
 	case "basic-nul":
 		rawAuth("Basic " + enc(id+"\x00:"+secret))
+	case "basic-pct-binary":
+		rawAuth("Basic " + enc(pick(r, id+"%00", "%ff%fe", id)+":"+pick(r, secret+"%00", "%ff", "%0d%0a")))
 	case "basic-lower":
 		rawAuth(pick(r, "basic ", "BASIC ", "bAsIc ") + valid)
 	case "basic-unescaped":
